@@ -8,6 +8,7 @@ impl<'de, R: Reader<'de>> Parser<R> {
         requires old(self).pinv(), (left == 0x7b && right == 0x7d) || (left == 0x5b && right == 0x5d),
         ensures final(self).pinv(), final(self).same_doc(old(self)), final(self).read.idx() >= old(self).read.idx(),
             skip_container_post(old(self).read.data(), old(self).read.idx() as int, final(self).read.idx() as int, res.is_ok(), left, right),
+            res.is_err() ==> err_ok(res->Err_0, old(self).read.data()),
     { unimplemented!() }
 
 //@extract file=src/parser.rs impl="Parser<R>" fn=skip_one_unchecked
@@ -26,6 +27,8 @@ impl<'de, R: Reader<'de>> Parser<R> {
                 &&& (is_esc_status(res.unwrap().1) ==> s[p] == 0x22 && has_bs(s, p + 1, e))
                 &&& (s[p] == 0x22 ==> (is_esc_status(res.unwrap().1) <==> has_bs(s, p + 1, e)))
             }),
+            // every error is made by Parser::error: positioned inside the input (C20)
+            res.is_err() ==> err_ok(res->Err_0, old(self).read.data()),
 //@before /let ch = self\.skip_space\(\);/
         let ghost s = self.read.data();
         let ghost i0 = self.read.idx() as int;
